@@ -351,14 +351,14 @@ def r3_auto_remove(run, w):
       if not (isinstance(c.func, ast.Attribute) and c.func.attr == "apply_auto_removes"):
         continue
       n_calls += 1
-      is_loop = n.kind == "while" and n.stmt.test is c
-      recalc = set()
-      if is_loop:
-        body = H.nodes_of_stmts(fn.cfg, H.stmts_under(n.stmt.body))
-        recalc = {m.id for (m, c2, nm2) in fn.calls() if nm2 == "self._bring_all_up_to_date"} & body
-        first = H.nodes_of_stmts(fn.cfg, n.stmt.body[:1])
-        # every way round the loop recalculates before the set is consulted again
-        is_loop = bool(recalc) and n.id not in fn.cfg.reach(first, removed=recalc)
+      # the call sits on a cycle of the CFG (it is repeated), and every way round that cycle
+      # recalculates before the set is consulted again
+      allrec = {m.id for (m, c2, nm2) in fn.calls() if nm2 == "self._bring_all_up_to_date"}
+      on_cycle = n.id in fn.cfg.reach_after({n.id})
+      recalc = {r for r in allrec if r in fn.cfg.reach_after({n.id}) and
+                n.id in fn.cfg.reach_after({r})}
+      is_loop = on_cycle and bool(recalc) and \
+          n.id not in fn.cfg.reach_after({n.id}, removed=recalc)
       run.ob(R3, fi.qualname, "while ...apply_auto_removes(): self._bring_all_up_to_date()",
              "auto-removals are applied round after round, recalculating in between (a removal can "
              "make further records removable), until a round removes nothing", is_loop, fi=fi,
